@@ -66,6 +66,12 @@ def underModes (m : String) (f : Bool → String) : String :=
   | some [x, y] => if f x = f y then f x else "mode-dependent"
   | _ => "bad-op"
 
+/-- model output, plus `spec=`/`kf=` where the zero-hash quirk of `H256.UnmarshalSCALE` shows -/
+def withSpec (m : String) (f : Bool → Bool → String) : String :=
+  let mo := underModes m (f true)
+  let sp := underModes m (f false)
+  if mo = sp then mo else mo ++ "\tspec=" ++ sp ++ "\tkf=triedb-zero-hash"
+
 def kindVariant (k : String) : Option Variant :=
   if k = "L" then some leafV else if k = "LH" then some leafHashedV else if k = "B" then some branchV
   else if k = "BV" then some branchValV else if k = "BH" then some branchHashedV else none
@@ -127,7 +133,7 @@ def step (line : String) : String :=
     | none => "bad-op"
   | ["td", m, h] =>
     match ofHex? h with
-    | some b => underModes m fun s => outStr dumpTNode (tdecode s b)
+    | some b => withSpec m fun q s => outStr dumpTNode (tdecodeG q s b)
     | none => "bad-op"
   | "ne" :: m :: expr =>
     match parseNode expr with
@@ -142,7 +148,7 @@ def step (line : String) : String :=
       if nn > maxPartialKeyLength then "panic"
       else
         let enc := tencodeLeaf kb nn tv
-        underModes m fun s => hex enc ++ " " ++ outStr dumpTNode (tdecode s enc)
+        withSpec m fun q s => hex enc ++ " " ++ outStr dumpTNode (tdecodeG q s enc)
     | _, _, _ => "bad-op"
   | "te" :: m :: "B" :: key :: n :: v :: kids =>
     match ofHex? key, n.toNat?, (if v = "nil" then some none else (parseTValue v).map some),
@@ -152,7 +158,7 @@ def step (line : String) : String :=
       else if nn > maxPartialKeyLength then "panic"
       else
         let enc := tencodeBranch kb nn cs tv
-        underModes m fun s => hex enc ++ " " ++ outStr dumpTNode (tdecode s enc)
+        withSpec m fun q s => hex enc ++ " " ++ outStr dumpTNode (tdecodeG q s enc)
     | _, _, _, _ => "bad-op"
   | _ => "bad-op"
 
